@@ -4,12 +4,10 @@
 //verif:replace path/filepath.Glob = c10Glob
 //verif:replace (*regexp.Regexp).Match = c10Match
 //verif:replace@C10f (*github.com/mimecast/dtail/internal/user/server.User).HasFilePermission = c10Perm
-//verif:replace (*github.com/mimecast/dtail/internal/mapr/server.Aggregate).aggregateTimer = c10NoTimer
 
 package handlers
 
 import (
-	"context"
 	"encoding/base64"
 	"errors"
 	"regexp"
@@ -18,7 +16,6 @@ import (
 	"github.com/mimecast/dtail/internal/config"
 	"github.com/mimecast/dtail/internal/io/dlog"
 	"github.com/mimecast/dtail/internal/io/fs"
-	"github.com/mimecast/dtail/internal/mapr/server"
 	"github.com/mimecast/dtail/internal/source"
 	user "github.com/mimecast/dtail/internal/user/server"
 	"github.com/mimecast/dtail/internal/verifrt"
@@ -60,9 +57,9 @@ func c10Match(re *regexp.Regexp, b []byte) bool { return len(b) > 0 && b[0] == '
 // permissions are the subject of C08
 func c10Perm(u *user.User, filePath, permissionType string) bool { return true }
 
-// the periodic serialisation timer is not started: "interval 0" makes it spin
-// (CPU exhaustion, outside C10); crashes are what is looked for here
-func c10NoTimer(a *server.Aggregate, ctx context.Context) {}
+// (the periodic serialisation timer runs for real; with "interval 0" it spins: the
+// engine parks a goroutine that keeps asking for zero-duration timers, CPU exhaustion
+// is outside C10)
 
 const c10Alphabet = " :=,%;.`\"()$*/-_0123456789abcdefghijklmnopqrstuvwxyzAXZ\n\t|"
 
